@@ -341,3 +341,19 @@ def instance_state_rule(model, rep, rule: str, text: str, keep, floor: int = 1):
             rep.fail(rule, f"{c.name}.{s.attr}[shared]", s.loc, found=s.why, required=f"self.{s.attr} bound in __init__ / a dataclass field with default_factory",
                      what=f"all {c.name} objects read and write one container: a value set on one of them is seen (or overwritten) through every other, and a fresh "
                           f"one does not start empty ({s.site.qualname} changes it in place)", detail=f"shared:{s.attr}")
+
+
+def depth_bound_assumption(model, rep):
+    """The layer traversal stops (with a warning) after a fixed number of layers.  Whether that number suffices is a statement about run-time depths and is
+    not decided; the value in force is read from the source and recorded as an assumption of the properties that rest on complete traversal."""
+    import ast as _ast
+    found = []
+    for m in model.modules.values():
+        for name, v in m.assigns.items():
+            if "DEPTH" in name.upper() and isinstance(v, _ast.Constant) and isinstance(v.value, int):
+                uses = sum(1 for n in _ast.walk(m.tree) if isinstance(n, _ast.keyword) and n.arg == "max_iterations" and isinstance(n.value, _ast.Name) and n.value.id == name)
+                found.append((m.relpath, name, v.value, uses))
+    if not found:
+        rep.assume("no named traversal bound found in the graph modules (layer traversal unbounded or bounded by a literal)")
+    for rel, name, val, uses in found:
+        rep.assume(f"no circuit graph is deeper than {name} = {val} layers ({rel}; bounds {uses} traversal loop(s), which stop there with a warning and drop the rest)")
